@@ -3,8 +3,26 @@ namespace MaddyVerif.Expect.FuncSkelC13
 
 /-- (declaration, fingerprint of its normalised text): comments, layout, local names and log/trace statements do not count -/
 def funcs : List (String × String) := [
+  ("framework/dns/dnssec.go:ExtResolver.AuthLookupAddr", "65d92385ad51a194"),
+  ("framework/dns/dnssec.go:ExtResolver.AuthLookupCNAME", "ab87bf8ba1a24f38"),
+  ("framework/dns/dnssec.go:ExtResolver.AuthLookupHost", "c78d1d557cd4b9dc"),
+  ("framework/dns/dnssec.go:ExtResolver.AuthLookupIPAddr", "4fafea4f1f027143"),
+  ("framework/dns/dnssec.go:ExtResolver.AuthLookupMX", "d8a1a05ffc6fc365"),
+  ("framework/dns/dnssec.go:ExtResolver.AuthLookupTLSA", "c3c0c8796446cf7c"),
+  ("framework/dns/dnssec.go:ExtResolver.AuthLookupTXT", "dbe8f9fff8f50fc7"),
+  ("framework/dns/dnssec.go:ExtResolver.CheckCNAMEAD", "deba0b979715d91c"),
+  ("framework/dns/dnssec.go:ExtResolver.exchange", "c790fd90c1f78540"),
+  ("framework/dns/dnssec.go:IsNotFound", "6f6aaed7b444a590"),
+  ("framework/dns/dnssec.go:NewExtResolver", "0b6b4ed8109a5956"),
+  ("framework/dns/dnssec.go:RCodeError.Error", "0973f9a3506941c4"),
+  ("framework/dns/dnssec.go:RCodeError.Temporary", "d1967107e8112a9e"),
+  ("framework/dns/dnssec.go:isLoopback", "e857106f209db453"),
+  ("framework/dns/dnssec.go:type ExtResolver", "7c35b0509d5a21eb"),
+  ("framework/dns/dnssec.go:type RCodeError", "c9c367555fd263a9"),
+  ("framework/dns/dnssec.go:type TLSA", "6a7f7e8889467d67"),
   ("internal/target/remote/dane.go:verifyDANE", "70fad5dc5bc554fe"),
   ("internal/target/remote/security.go:daneDelivery.CheckConn", "3650a0df52e21147"),
+  ("internal/target/remote/security.go:daneDelivery.CheckMX", "9e668a7d7751404e"),
   ("internal/target/remote/security.go:daneDelivery.PrepareConn", "0d1d2dbfa1241290"),
   ("internal/target/remote/security.go:daneDelivery.PrepareDomain", "16a40e93345d653c"),
   ("internal/target/remote/security.go:daneDelivery.Reset", "6372c02bbb7b40a0"),
